@@ -1,0 +1,49 @@
+//go:build verif
+
+package lossless
+
+// Verification hook for the parallel second pass of the hash chain (property
+// C12: the encoder's output must not depend on how fillParallel cuts the
+// position range). Compiled only with the build tag "verif"; it adds no
+// behaviour of its own.
+
+// VerifFillMatchEnds builds the hash chain of argb (first pass of
+// HashChain.Fill, parallel second-pass path: xsize*ysize must exceed 50000),
+// runs fillMatchRange - the worker body of fillParallel - once over the whole
+// position range [1, size-1) and then, for every requested range end e, once
+// more over the short range [max(1, e-span), e) as a worker whose range ends at
+// e would. It returns the OffsetLength entries of the whole run (before the
+// serial left-extension pass) and, per end, the entries of the short range.
+// A worker body without loop-carried state gives pieces[i][k] ==
+// whole[max(1,e-span)+k]. ok is false when the picture is too small for the
+// parallel path.
+func VerifFillMatchEnds(argb []uint32, xsize, ysize, quality int, ends []int, span int) (whole []uint32, pieces [][]uint32, ok bool) {
+	size := xsize * ysize
+	if size <= 50000 || len(argb) < size || span < 1 {
+		return nil, nil, false
+	}
+	hc := NewHashChain(size)
+	hc.Fill(argb, quality, xsize, ysize, false)
+	if len(hc.chainBuf) < size {
+		return nil, nil, false
+	}
+	chain := hc.chainBuf
+	iterMax := getMaxItersForQuality(quality)
+	winSize := uint32(GetWindowSizeForHashChain(quality, xsize))
+	whole = make([]uint32, size)
+	fillMatchRange(whole, chain, argb, xsize, size, iterMax, winSize, 1, size-1)
+	tmp := make([]uint32, size)
+	for _, e := range ends {
+		if e < 2 || e > size-1 {
+			pieces = append(pieces, nil)
+			continue
+		}
+		s := e - span
+		if s < 1 {
+			s = 1
+		}
+		fillMatchRange(tmp, chain, argb, xsize, size, iterMax, winSize, s, e)
+		pieces = append(pieces, append([]uint32(nil), tmp[s:e]...))
+	}
+	return whole, pieces, true
+}
